@@ -56,6 +56,10 @@ func Parse(r *parse.Input, o Options) (*AST, error) {
 		p.enterScope(&ast.BlockStmt.Scope, true)
 		for {
 			if p.tt == ErrorToken {
+				if 0 < len(p.comments) {
+					ast.BlockStmt.List = append(p.comments, ast.BlockStmt.List...)
+					p.comments = p.comments[:0]
+				}
 				break
 			}
 			ast.BlockStmt.List = append(ast.BlockStmt.List, p.parseStmt(true))
